@@ -426,6 +426,10 @@ class NormProfile(FieldProfile):
             ms = rng.choice(meshes)
             nvdim = rng.choice([1, 2, 3, 3, 4])
             o = {"op": "F.construct", "on": ms, "out": out, "nvdim": nvdim, "dtype": None, "spec": {"t": "array", "a": self.table(rng, cfg, nvdim)}, "vdims": None, "unit": rng.choice([None, "A/m"])}
+            if nvdim == 1 and rng.random() < 0.5:
+                o["spec"]["squeeze"] = True  # one number per cell, shape n (on a 1-d mesh: a flat sequence)
+                if rng.random() < 0.5 and st.h[ms].box.v.ncells <= 40:
+                    o["spec"]["aslist"] = True
             if rng.random() < 0.4:
                 o["norm"] = self.norm_spec(rng, st.h[ms].box.v)
             if rng.random() < 0.4:
@@ -441,6 +445,11 @@ class NormProfile(FieldProfile):
             if cm is not None:
                 st.extra.setdefault("queue", []).append({"op": "F.construct", "on": out, "out": out + 1, "nvdim": 1, "dtype": None, "spec": {"t": "array", "a": {"kind": "rint", "seed": rng.randrange(2**31), "lo": 0 if rng.random() < 0.3 else 1, "hi": 7, "step": rng.choice([1.0, 0.5, 1e5])}}, "vdims": None, "unit": None})
                 return dict(cm, op="Mesh.new", out=out)
+        if rng.random() < 0.04:
+            # norm c - values drift by a few parts per million - norm c again: exactly c afterwards
+            c = rng.choice([1.0, 8e5, 2.5, 1.003e-6])
+            st.extra.setdefault("queue2", []).extend([{"op": "F.nudge", "on": s, "eps": rng.choice([5e-7, -3e-6, 2e-9])}, {"op": "F.setnorm", "on": s, "spec": {"t": "const", "v": c}}])
+            return {"op": "F.setnorm", "on": s, "spec": {"t": "const", "v": c}}
         if rng.random() < cfg.get("p_badnorm", 0.0):
             # refused norm - values updated so that some cells are zero - valid norm: zero cells stay zero
             nv = h.fm.nvdim
